@@ -287,16 +287,17 @@ func init() {
 				}
 				fa := e.FA(fn)
 				n := 0
-				for _, ret := range Returns(fn) {
-					// the shortcut return: reached through the true edge of totalShares.IsZero()
-					isShortcut := fa.HasGuard(ret, func(g Guard) bool {
+				for _, rc := range fa.ReturnCases(0) {
+					ret := rc.Ret
+					// the shortcut case: reached through the true edge of totalShares.IsZero()
+					isShortcut := rc.HasCaseGuard(func(g Guard) bool {
 						return g.Pos && g.Cond.IsCall("math.LegacyDec.IsZero") && g.Cond.Args[0].String() == "$totalShares"
 					})
 					if !isShortcut {
 						continue
 					}
 					n++
-					alsoTokens := fa.HasGuard(ret, func(g Guard) bool {
+					alsoTokens := rc.HasCaseGuard(func(g Guard) bool {
 						return g.Pos && g.Cond.IsCall("math.LegacyDec.IsZero") && g.Cond.Args[0].String() == "$totalTokens"
 					})
 					r.Check(alsoTokens, k, "empty-pool shortcut requires zero tokens as well", "shortcut dominated by totalTokens.IsZero() too", "the shortcut for `no shares yet` is taken whenever the share total is zero, whatever the pool holds: after every validator holding an asset was slashed with effective fraction 1 (x/staking computes the fraction from the power at the infraction height, which can exceed the validator's current tokens) asset.TotalValidatorShares is 0 while 1 000 000 tokens are staked; the slashed position still reports 1 000 000 (the 100% slash had no effect), and the next delegation of ONE unit is issued shares 1:1, owns the whole total (1 000 001) and can undelegate it", r.P(ret))
